@@ -3,6 +3,7 @@ package validator
 import (
 	"bytes"
 	"encoding/json"
+	"errors"
 	e "github.com/aml-org/amf-custom-validator/pkg/events"
 )
 
@@ -16,7 +17,7 @@ func ProcessInput(jsonldText string, debug bool, receiver *chan e.Event) (any, e
 
 	var input any
 	if err := decoder.Decode(&input); err != nil {
-		return "", nil
+		return nil, errors.New("cannot read input data as JSON: " + err.Error())
 	}
 	dispatchEvent(e.NewEvent(e.InputDataParsingDone), receiver)
 
@@ -24,7 +25,11 @@ func ProcessInput(jsonldText string, debug bool, receiver *chan e.Event) (any, e
 	if err := verifFault("normalize"); err != nil {
 		return nil, err
 	}
-	normalizedInput := Index(Normalize(input))
+	flattened, err := normalize(input)
+	if err != nil {
+		return nil, errors.New("cannot process input data as JSON-LD: " + err.Error())
+	}
+	normalizedInput := Index(flattened)
 	dispatchEvent(e.NewEvent(e.InputDataNormalizationDone), receiver)
 
 	return normalizedInput, nil
